@@ -1,6 +1,7 @@
 package props
 
 import (
+	"go/ast"
 	"fmt"
 	"sort"
 	"strings"
@@ -224,8 +225,71 @@ func c05R6(c *Ctx) {
 			r.Bad("C05-R6", u.Name+": the all-zero flag is only set to constants", u.Pos(s.Pos), "value "+u.C.Term(s.RHS))
 		}
 	}
-	// the chunks are slices of the record's bytes
-	r.StoreValues("C05-R6", u, an.LocalStore("chunks"), []string{"[][]byte{}", "append(chunks, p0[curOff:(chunkLen + curOff)])"}, 2)
+	// the bytes tested are the record's own: the byte loop ranges over a slice of p0, taken directly or collected in a
+	// list of such slices first (either arrangement)
+	sliceOfP0 := func(e ast.Expr) bool {
+		se, ok := ast.Unparen(e).(*ast.SliceExpr)
+		return ok && u.C.Term(se.X) == "p0"
+	}
+	okBytes, nLoops := true, 0
+	u.InspectAll(func(n ast.Node) bool {
+		rs, ok := n.(*ast.RangeStmt)
+		if !ok {
+			return true
+		}
+		t := u.Info().TypeOf(rs.X)
+		if t == nil || t.String() != "[]byte" {
+			return true
+		}
+		nLoops++
+		id, ok := ast.Unparen(rs.X).(*ast.Ident)
+		if !ok {
+			okBytes = okBytes && sliceOfP0(rs.X)
+			return true
+		}
+		o := u.Info().ObjectOf(id)
+		// a local defined as a slice of p0 ...
+		good := false
+		for _, d := range u.Sites {
+			if d.Kind == flow.SStore && d.Local == o && d.RHS != nil && sliceOfP0(d.RHS) {
+				good = true
+			}
+		}
+		// ... or the value variable of a range over a list that only ever receives slices of p0
+		u.InspectAll(func(m ast.Node) bool {
+			outer, ok := m.(*ast.RangeStmt)
+			if !ok || outer.Value == nil {
+				return true
+			}
+			if vid, ok := outer.Value.(*ast.Ident); !ok || u.Info().ObjectOf(vid) != o {
+				return true
+			}
+			lid, ok := ast.Unparen(outer.X).(*ast.Ident)
+			if !ok {
+				return true
+			}
+			lo := u.Info().ObjectOf(lid)
+			all, any := true, false
+			for _, d := range u.Sites {
+				if d.Kind != flow.SStore || d.Local != lo || d.RHS == nil {
+					continue
+				}
+				if call, ok := ast.Unparen(d.RHS).(*ast.CallExpr); ok && len(call.Args) == 2 && strings.HasPrefix(u.C.Term(d.RHS), "append(") {
+					any = true
+					all = all && sliceOfP0(call.Args[1])
+				} else if _, isLit := ast.Unparen(d.RHS).(*ast.CompositeLit); !isLit {
+					all = false
+				}
+			}
+			if all && any {
+				good = true
+			}
+			return true
+		})
+		okBytes = okBytes && good
+		return true
+	})
+	r.Check("C05-R6", u.Name+": the bytes tested for zero are slices of the record's own bytes", "", okBytes && nLoops >= 1, fmt.Sprintf("%d byte loops", nLoops))
 	// callers: a failure is turned into ErrUnexpectedEOF only under isTornEntry
 	if du := c.unit("C05-R6", "wal.(*decoder).decodeRecord"); du != nil {
 		for _, s := range du.Sites {
